@@ -224,6 +224,24 @@ func ruleF2I(c *Ctx) {
 					c.ok(key, cv.Pos(), "tabled: %s", why)
 					return
 				}
+				// a helper extracted from a tabled function: every caller is tabled for this sink
+				if callers := f2iCallers(c, short, fn); len(callers) > 0 {
+					all, reason := true, ""
+					for _, cal := range callers {
+						w, ok := f2iTable[fnKey(cal)+"->"+sink]
+						if !ok {
+							w, ok = f2iTable[fnKey(cal)]
+						}
+						if !ok {
+							all = false
+						}
+						reason = w
+					}
+					if all {
+						c.ok(key, cv.Pos(), "tabled through its only caller(s): %s", reason)
+						return
+					}
+				}
 				_ = why
 				c.bad(key, cv.Pos(), "float->%s conversion of %s is neither range-guarded nor tabled: for a value outside the target range (or NaN) the result is implementation-defined (amd64 yields the minimum integer), so a script-controlled number gives a wrong, platform-dependent result here", cv.Type(), k)
 			})
@@ -236,6 +254,23 @@ func ruleF2I(c *Ctx) {
 	}
 	sort.Strings(ks)
 	c.stat("tabled-sites", len(ks))
+}
+
+// f2iCallers: the functions of the package that call fn statically (nil when fn's address is taken elsewhere is
+// not considered: only direct calls are looked at, and a function without any direct caller yields nil).
+func f2iCallers(c *Ctx, short string, fn *ssa.Function) []*ssa.Function {
+	seen := map[*ssa.Function]bool{}
+	var out []*ssa.Function
+	for _, g := range c.srcFuncs(short) {
+		g := g
+		allInstrs(g, func(in ssa.Instruction) {
+			if call, ok := in.(ssa.CallInstruction); ok && call.Common().StaticCallee() == fn && !seen[g] && g != fn {
+				seen[g] = true
+				out = append(out, g)
+			}
+		})
+	}
+	return out
 }
 
 // onlyToReflectValueOf: every use of the converted value (through integer conversions, boxing and phis) ends as
